@@ -4,5 +4,6 @@ CONSTANTS MaxOps = 1
   Targets <- TargetsAll
   NevTargets <- NevAll
   AddWeights <- WeightsAll
+  SeqOnly = FALSE
 INVARIANT Emitted
 CHECK_DEADLOCK FALSE
